@@ -637,11 +637,11 @@ func runR073(c *core.Ctx) {
 				env, how = 2, "batch entities envelope: key + map key"
 			}
 			want := env
-			if strings.Contains(mconst.Name(), "partial_update") {
+			if strings.Contains(core.NameOf(mconst), "partial_update") {
 				want++
 				how += " + patch key"
 			}
-			c.Check(got == want, rel, fn, "leadingScopeToIgnore equals the envelope depth of "+mconst.Name(), call.Args[4].Pos(), fmt.Sprintf("%d (%s)", got, how),
+			c.Check(got == want, rel, fn, "leadingScopeToIgnore equals the envelope depth of "+core.NameOf(mconst), call.Args[4].Pos(), fmt.Sprintf("%d (%s)", got, how),
 				fmt.Sprintf("passes %d, the entity's fields start at depth %d (%s): the exclusion spec never matches (or matches the wrong level)", got, want, how))
 			return true
 		})
